@@ -153,12 +153,35 @@ def run(ctx):
 
 
 def replay(ctx, path):
+    """Re-run the recorded case on the implementation built from the current tree."""
     r = json.load(open(path))
     ctx.build_harness()
-    if r.get("how"):
-        args = r["how"].split()
-        rc, out = ctx.vh(args[0], args[1:], timeout=1500)
-        bad = [l for l in out.split("\n") if l.startswith("{") and '"obs"' in l]
-        print("schedules run:", len(bad))
-        print(out[-1500:])
+    print(json.dumps({k: v for k, v in r.items() if k not in ("observed", "first_bad", "gen")}, indent=1)[:2500])
+    how = r.get("how", "")
+    sched_names = [x.split("@")[0] for x in r.get("schedule", [])] if isinstance(r.get("schedule"), list) else []
+    if r.get("kind") == "progress":
+        rc, out = ctx.vh("vh-api", ["progress"], inp=" ".join(r["ops"]) + "\n")
+        got = [int(x) for x in out.split("\n")[0].split()]
+        print("observed now:", got, "expected:", r.get("expected"))
+        return 0 if got == r.get("expected") else 1
+    if how.startswith("vh-match conc") and sched_names:
+        args = how.split()[1:]
+        args[2] = "prefix=" + ",".join(sched_names)
+        rc, out = ctx.vh("vh-match", args, timeout=600)
+        print("observed now:", out[-1500:])
+        return 0
+    if how.startswith("vh-api") and sched_names:
+        args = how.split()[1:]
+        rc, out = ctx.vh("vh-api", args, timeout=600, env={"VH_PREFIX": ",".join(sched_names)})
+        print("observed now:", out[-1500:])
+        return 0
+    if how.startswith("vh-") :
+        args = how.split()
+        rc, out = ctx.vh(args[0], args[1:], timeout=1800)
+        print("observed now:", out[-1500:])
+        return 0
+    if "| work/bin/vh-match seq" in how:
+        line = how.split("'")[1]
+        rc, out = ctx.vh("vh-match", ["seq"], inp=line + "\n")
+        print("observed now:", out[-1500:])
     return 0
